@@ -1,18 +1,17 @@
 import LicenseExpr.Props.C04
 import LicenseExpr.Lemmas.Tiles
+import LicenseExpr.Lemmas.Agree
 /-!
 # C18 — simple and default tokenizers agree on space-free symbols
 
-Proved here (partial, named so): what both tokenizers do with one-word names. With keys that contain
-no whitespace and no aliases every stored name — keys and keywords alike — is one word. Then
-(`C18_single_word_matches_partial`) every match the automaton reports stands on exactly one piece of
-the text, the piece being scanned: no match spans two words, no two matches overlap, so the overlap
-filter has nothing to decide and positions and strings are the piece's own — exactly the tokens the
-simple tokenizer makes (`C18_simple_tokens_partial`: one token per non-blank piece, at its
-position). The full statement — the two pipelines return the same outcome — is
-`C18_agree_statement`; the remaining step (the look-ups by lower-cased key agree, and adjacent plain
-words are excluded by the premise so merging is the identity on both sides) is covered by the
-correspondence run, including exhaustively over all short token strings.
+Proved here, in full (`C18_agree`): with keys that contain no whitespace and no aliases every stored
+name — keys and keywords alike — is one word. Then the automaton reports at every piece exactly what
+is stored under that piece's folded word, no two reports overlap, the overlap sweep keeps everything
+and nothing is left uncovered (`tokenize_oneWord`); what the automaton stores under a word is what
+the simple tokenizer looks up (last entry with that lower-cased key, else the operator word:
+`buildTrie_dict`, `oneTok_dict`); and since no two plain words are adjacent, merging unknown words is
+the identity on both sides (`mergeUnknown_isolated`). The two tokenizers therefore hand the same
+triples, or the same error, to the shared later stages. The two earlier partial lemmas are kept.
 -/
 namespace LE
 variable {V : Type}
@@ -36,17 +35,66 @@ theorem C18_simple_tokens_partial (c : Cls) (T : Table) (ps : List Piece) (out :
     (h : simpleTokens c T ps = .ok out) : Tiles ps out ∧ out.length ≤ ps.length :=
   ⟨simpleTokens_tiles c T ps out h, tiles_length (simpleTokens_tiles c T ps out h)⟩
 
-/-- the premise on the table: every key is one word and there are no aliases -/
-def SpaceFree (c : Cls) (T : Table) : Prop := ∀ e ∈ T, e.aliases = [] ∧ (wordsOf c e.key).length = 1
+/-- **C18 (tokens)**: for a table without aliases whose keys are single words (no whitespace), and any
+    text in which no two plain words stand next to each other, the simple and the default tokenizer
+    hand the same `(token, string, position)` triples — or the same error — to the parser, in strict
+    and non-strict mode alike. `ClsOK` is what the model assumes of letter classes (keyword spellings
+    fold to themselves, folding a word never yields a parenthesis). -/
+theorem C18_tokens (c : Cls) (hc : ClsOK c) (T : Table) (hT : SpaceFreeT c T) (strict : Bool) (text : Str)
+    (hadj : NoAdjacentPlain c text) : ltok c T true strict text = ltok c T false strict text :=
+  ltok_agree c hc T hT strict text hadj
 
-/-- the premise on the text: no two plain words (neither operators nor parentheses) are adjacent -/
-def NoAdjacentPlain (c : Cls) (text : Str) : Prop :=
-  ∀ p q rest pre, wordPieces c text = pre ++ p :: q :: rest →
-    ¬ (p.kind = .word ∧ q.kind = .word ∧ operatorOf (c.fold p.text) = none ∧ operatorOf (c.fold q.text) = none)
+/-- **C18**: … hence parsing with the simple tokenizer has exactly the outcome of default parsing: the
+    same tree, or an error of the same kind, code, token and position — for every flag combination. -/
+theorem C18_agree (c : Cls) (hc : ClsOK c) (T : Table) (hT : SpaceFreeT c T) (strict validate : Bool) (text : Str)
+    (hadj : NoAdjacentPlain c text) :
+    parseFull c T true strict validate text = parseFull c T false strict validate text := by
+  have h := C18_tokens c hc T hT strict text hadj
+  unfold ltok at h
+  unfold parseFull parseFullW
+  rw [h]
 
-/-- the full statement of C18 (not proved here; checked by correspondence, exhaustively on short token strings) -/
-def C18_agree_statement : Prop :=
-  ∀ (c : Cls) (T : Table) (strict : Bool) (text : Str), SpaceFree c T → ¬ tableRefused c T = true → NoAdjacentPlain c text →
-    ltok c T true strict text = ltok c T false strict text
+/-- the premises are satisfiable: ASCII letter classes, a two-key table, a text with operators -/
+def asciiCls : Cls :=
+  ⟨fun x => x == 32 || x == 9 || x == 10, fun _ => true, fun x => if 65 ≤ x ∧ x ≤ 90 then [x + 32] else [x]⟩
+
+theorem asciiCls_ok : ClsOK asciiCls where
+  kw := by decide
+  noParen := by
+    intro x hx
+    have h1 : x ≠ LPAR := by intro h; subst h; simp [kindOf] at hx
+    have h2 : x ≠ RPAR := by intro h; subst h; simp [kindOf, LPAR, RPAR] at hx
+    simp only [asciiCls, LPAR, RPAR] at *
+    split <;> simp <;> omega
+
+example : SpaceFreeT asciiCls [⟨[109, 105, 116], [], false⟩, ⟨[71, 80, 76], [], true⟩] := by
+  intro e he
+  simp only [List.mem_cons, List.not_mem_nil, or_false] at he
+  rcases he with rfl | rfl <;> decide
+/-- the premise on the text, decidably -/
+def plainB (c : Cls) (p : Piece) : Bool := p.kind == .word && (operatorOf (c.fold p.text)).isNone
+
+def noAdjB (c : Cls) : List Piece → Bool
+  | p :: q :: rest => !(plainB c p && plainB c q) && noAdjB c (q :: rest)
+  | _ => true
+
+theorem noAdj_of_B (c : Cls) (text : Str) (h : noAdjB c (wordPieces c text) = true) : NoAdjacentPlain c text := by
+  intro p q rest pre hw
+  rw [hw] at h
+  clear hw
+  induction pre with
+  | nil =>
+    simp only [List.nil_append, noAdjB, Bool.and_eq_true, Bool.not_eq_true'] at h
+    intro hb
+    have hp : plainB c p = true := by simp [plainB, hb.1, hb.2.2.1]
+    have hq : plainB c q = true := by simp [plainB, hb.2.1, hb.2.2.2]
+    rw [hp, hq] at h; exact absurd h.1 (by simp)
+  | cons a pre ih =>
+    cases pre with
+    | nil => simp only [List.cons_append, List.nil_append, noAdjB, Bool.and_eq_true] at h; exact ih (by simpa [noAdjB] using h.2)
+    | cons b pre' => simp only [List.cons_append, noAdjB, Bool.and_eq_true] at h; exact ih (by simpa using h.2)
+
+example : NoAdjacentPlain asciiCls [109, 105, 116, 32, 79, 82, 32, 40, 103, 112, 108, 41] :=
+  noAdj_of_B _ _ (by decide)
 
 end LE
